@@ -40,9 +40,11 @@ fn transport_error_during_drop_is_an_error_not_a_panic() {
     // let the greeting, the auth OK, the column count, the definition, the EOF and the row through; fail the final EOF
     for allowed in 0..12 {
         let pipe = Pipe { input: Rc::new(RefCell::new(io::Cursor::new(bytes.clone()))), output: Default::default(), chunk: 0 };
-        let t = Faulty { inner: pipe, writes_left: Rc::new(RefCell::new(allowed)) };
+        let left = Rc::new(RefCell::new(allowed));
+        let t = Faulty { inner: pipe, writes_left: left.clone() };
         let r = std::panic::catch_unwind(std::panic::AssertUnwindSafe(|| MysqlIntermediary::run_on(Shim, t)));
         assert!(r.is_ok(), "run_on panicked when transport write #{} failed", allowed + 1);
-        if allowed < 7 { assert!(r.unwrap().is_err(), "fault at write #{} was masked", allowed + 1); }
+        // whenever the injected fault actually fired, run_on must report it (never mask it)
+        if *left.borrow() < 0 { assert!(r.unwrap().is_err(), "fault at write #{} was masked", allowed + 1); }
     }
 }
